@@ -8,22 +8,39 @@ use crate::util::*;
 use core::cell::Cell;
 use konst::{option, result};
 
+/// function-path arguments are observed through this call counter (must equal std's)
+static mut FN_CALLS: u32 = 0;
+fn tick() {
+    unsafe {
+        FN_CALLS += 1;
+    }
+}
+fn calls() -> u32 {
+    unsafe { FN_CALLS }
+}
+
 fn f_map(x: u8) -> u8 {
+    tick();
     x.wrapping_mul(3) ^ 0x5A
 }
 fn f_opt(x: u8) -> Option<u8> {
+    tick();
     if x & 1 == 0 { Some(x >> 1) } else { None }
 }
 fn f_res(x: u8) -> Result<u8, u8> {
+    tick();
     if x & 1 == 0 { Ok(x >> 1) } else { Err(!x) }
 }
 fn f_pred(x: &u8) -> bool {
+    tick();
     *x & 4 != 0
 }
 fn f_none() -> Option<u8> {
+    tick();
     Some(77)
 }
 fn f_zero() -> u8 {
+    tick();
     42
 }
 
@@ -62,12 +79,23 @@ fn option_closure_forms() {
 
 fn option_fn_path_forms() {
     let o: Option<u8> = kani::any();
-    assert!(option::unwrap_or_else!(o, f_zero) == o.unwrap_or_else(f_zero));
-    assert!(option::ok_or_else!(o, f_zero) == o.ok_or_else(f_zero));
-    assert!(option::map!(o, f_map) == o.map(f_map));
-    assert!(option::and_then!(o, f_opt) == o.and_then(f_opt));
-    assert!(option::or_else!(o, f_none) == o.or_else(f_none));
-    assert!(option::filter!(o, f_pred) == o.filter(f_pred));
+    macro_rules! same_calls {
+        ($k:expr, $s:expr) => {{
+            let c0 = calls();
+            let kv = $k;
+            let c1 = calls();
+            let sv = $s;
+            let c2 = calls();
+            assert!(kv == sv);
+            assert!(c1 - c0 == c2 - c1); // the function was called as often as std calls it
+        }};
+    }
+    same_calls!(option::unwrap_or_else!(o, f_zero), o.unwrap_or_else(f_zero));
+    same_calls!(option::ok_or_else!(o, f_zero), o.ok_or_else(f_zero));
+    same_calls!(option::map!(o, f_map), o.map(f_map));
+    same_calls!(option::and_then!(o, f_opt), o.and_then(f_opt));
+    same_calls!(option::or_else!(o, f_none), o.or_else(f_none));
+    same_calls!(option::filter!(o, f_pred), o.filter(f_pred));
     must_reach!(o == Some(6), "Some(6)");
     must_reach!(o.is_none(), "None");
 }
@@ -104,12 +132,23 @@ fn result_closure_forms() {
 
 fn result_fn_path_forms() {
     let r: Result<u8, u8> = kani::any();
-    assert!(result::unwrap_or_else!(r, f_map) == r.unwrap_or_else(f_map));
-    assert!(result::unwrap_err_or_else!(r, f_map) == match r { Ok(x) => f_map(x), Err(e) => e });
-    assert!(result::map!(r, f_map) == r.map(f_map));
-    assert!(result::map_err!(r, f_map) == r.map_err(f_map));
-    assert!(result::and_then!(r, f_res) == r.and_then(f_res));
-    assert!(result::or_else!(r, f_res) == r.or_else(f_res));
+    macro_rules! same_calls {
+        ($k:expr, $s:expr) => {{
+            let c0 = calls();
+            let kv = $k;
+            let c1 = calls();
+            let sv = $s;
+            let c2 = calls();
+            assert!(kv == sv);
+            assert!(c1 - c0 == c2 - c1);
+        }};
+    }
+    same_calls!(result::unwrap_or_else!(r, f_map), r.unwrap_or_else(f_map));
+    same_calls!(result::unwrap_err_or_else!(r, f_map), match r { Ok(x) => f_map(x), Err(e) => e });
+    same_calls!(result::map!(r, f_map), r.map(f_map));
+    same_calls!(result::map_err!(r, f_map), r.map_err(f_map));
+    same_calls!(result::and_then!(r, f_res), r.and_then(f_res));
+    same_calls!(result::or_else!(r, f_res), r.or_else(f_res));
     must_reach!(r == Ok(6), "Ok(6)");
     must_reach!(r == Err(7), "Err(7)");
 }
